@@ -118,12 +118,7 @@ theorem residueMask_eq (xs : List Atom) : residueMask xs = changeMask resBoundar
 
 theorem chainMask_eq (xs : List Atom) : chainMask xs = changeMask chainBoundary xs := by
   simp only [chainMask, orMask_changeMask]
-  unfold chainBoundary
-  congr 1
-  funext a c
-  congr 1
-  simp only [decide_eq_decide]
-  omega
+  rfl
 
 /-! ### splitting `range n` at an atom `i` -/
 
